@@ -20,15 +20,16 @@ from vf.runner import digest
 ID = "C16"
 LEVEL = "exploration"
 RULE = (
-    "enumerate every depth-first-ordered point tree with <=6 (quick) / <=8 (thorough) points x soma form "
+    "enumerate every depth-first-ordered point tree with <=6 (quick) / <=8 (thorough) points (Catalan(n-1) trees "
+    "with n points, including the file that is one soma point) x soma form "
     "{single point, 3-point chain 1-2-3 with neurites on any soma point} x 4 neurite type patterns over {2,3,4} "
     "(uniform; by subtree at the soma; change with depth inside a neurite; both) with fixed generic coordinates "
-    "and radii (functions of the point index only), dedupe identical files; read each file with the real "
+    "and radii (functions of the point index and the number of points only), dedupe identical files; read each file with the real "
     "jaxley.read_swc for ncomp {1,2,3} x max_branch_len {None, 18 um} x min_radius {None, 0.5 um} and compare "
     "branch count, parent relation, branch lengths, SWC-type groups and radii at compartment centres with the "
     "reference reader up to tree isomorphism (junction branch contracted), plus ncomp-invariance of lengths and "
-    "connectivity inside the implementation; a case (file, options) is distinct/non-trivial if the reference has "
-    ">=2 sections"
+    "connectivity inside the implementation; an exception from read_swc is a violation (the files are well "
+    "formed); a case (file, options) is distinct/non-trivial if the reference has >=2 sections"
 )
 REQUIRED_COVER = [
     "single_point_soma",
@@ -48,7 +49,7 @@ REQUIRED_COVER = [
     "agrees_with_reference:two_neurite_types",
 ]
 ASSUMPTIONS = [
-    "coordinates and radii are one fixed generic valuation per point index (no coincidences between compartment "
+    "coordinates and radii are one fixed generic valuation per (point index, number of points) (no coincidences between compartment "
     "centres and traced points, no equal section lengths except the 1 um zero-length convention); the reader's "
     "arithmetic is piecewise linear in them, other valuations are not explored",
     "branch ORDER is not documented: branches are compared up to tree isomorphism (children in any order)",
@@ -63,6 +64,8 @@ ASSUMPTIONS = [
     "and excluded from lengths and groups; its radius is not judged",
     "groups are compared as a partition of branches with the documented names (soma, axon, basal, apical); "
     "cell.xyzr is not judged",
+    "a file that consists of one soma point is taken to be a well-formed SWC file (a point neuron)",
+    "tolerances: branch lengths 1e-9 relative, radii 1e-4*(1+r) (the reader's 1e-8 knot fudge gives <=3e-7)",
     "trees above the stated number of points are not explored",
 ]
 
@@ -258,15 +261,28 @@ def _where(exc):
 
 
 def _needs_mbl(vio, text, opts, nested):
-    """Signature field `needs_max_branch_len`: does the same rule also fail without max_branch_len?"""
-    if nested:
+    """Signature field `needs_max_branch_len`: does the same rule also fail without max_branch_len?
+    `nested` is True (inner call: leave alone), False (find out by reading again without max_branch_len) or the
+    set of rules that failed without max_branch_len (known to the caller)."""
+    if nested is True or not vio:
+        return vio
+    keep = [v for v in vio if v["sig"].get("explained_by")]  # fully explained by a labelled defect: no further split
+    vio = [v for v in vio if not v["sig"].get("explained_by")]
+    return keep + _needs_mbl2(vio, text, opts, nested)
+
+
+def _needs_mbl2(vio, text, opts, nested):
+    if not vio:
         return vio
     if opts["max_branch_len"] is None:
         for v in vio:
             v["sig"]["needs_max_branch_len"] = False
         return vio
-    plain, _ = check_one(text, opts["ncomp"], None, opts["min_radius"], _nested=True)
-    rules = {v["sig"]["rule"] for v in plain}
+    if nested is False:
+        plain, _ = check_one(text, opts["ncomp"], None, opts["min_radius"], _nested=True)
+        rules = {v["sig"]["rule"] for v in plain}
+    else:
+        rules = set(nested)
     for v in vio:
         v["sig"]["needs_max_branch_len"] = v["sig"]["rule"] not in rules
     return vio
@@ -328,6 +344,13 @@ def check_one(text, ncomp, max_branch_len, min_radius, _nested=False):
             sig["rule"] = "branch_count"
         elif abs(tot_ref - tot_impl) > 1e-9 * (1 + tot_ref):
             sig["rule"] = "branch_lengths" if max_branch_len is None else "total_length"
+            ex = tot_impl - tot_ref
+            if abs(ex - 1.0) < 1e-6:
+                sig["excess"] = "1um"
+            elif any(abs(ex - 2 * r["r"]) < 1e-6 for r in ref["rows"]):
+                sig["excess"] = "2r_of_a_traced_point"
+            else:
+                sig["excess"] = "other"
         elif max_branch_len is None and not _same_multiset([s["length"] for s in secs], [b["length"] for b in branches]):
             sig["rule"] = "branch_lengths"
         else:
@@ -460,9 +483,14 @@ def work(item):
     ref = refswc.read(text)
     out["cover"] += file_cover(ref)
     obs = {}
-    for o in option_grid():
+    plain_rules = {}
+    for o in option_grid():  # max_branch_len=None comes first
         out["evals"] += 1
-        vio, info = check_one(text, o["ncomp"], o["max_branch_len"], o["min_radius"])
+        key = (o["ncomp"], o["min_radius"])
+        vio, info = check_one(text, o["ncomp"], o["max_branch_len"], o["min_radius"],
+                              _nested=False if o["max_branch_len"] is None else plain_rules[key])
+        if o["max_branch_len"] is None:
+            plain_rules[key] = sorted({v["sig"]["rule"] for v in vio})
         out["violations"] += vio
         out["cover"] += info["cover"]
         if info["obs"] is not None:
